@@ -3,7 +3,11 @@
            the file; chain following (C13_chain_follow), cyclic chains, the mini stream
            (C13_mini_compose).
    Part 2: the tables written by cfb_write (FAT, mini FAT, sector placement) describe the chains of
-           the layout; layout independence over the parsed tables. *)
+           the layout; layout independence over the parsed tables.
+   Part 3: the bytes of the tables are read back (FAT sectors, directory chain, mini FAT, mini stream).
+   Part 4: header, DIFAT walk, directory entries; Cfb::new on a written file; layout independence
+           through the bytes (layout_independent).
+   Part 5: totality (no panic, the only fuel is bounded by the file). *)
 From Coq Require Import FinFun.
 From Calamine Require Import Prelude Utf16 Utf16_proofs Cfb.
 Open Scope N_scope.
@@ -52,32 +56,63 @@ Qed.
 Definition Inv (ss : N) (body : list N) (s : sectors) (r : list N) : Prop :=
   ssize s = ss /\ sdata s ++ r = body.
 
+(* get never panics and never loses a byte: cache ++ reader is unchanged *)
+Lemma get_total : forall s id r,
+  get s id r = Err ERR_IO \/
+  exists sl s' r', get s id r = Ok (sl, s', r') /\ ssize s' = ssize s /\
+                   sdata s' ++ r' = sdata s ++ r /\ lenN (sdata s) <= lenN (sdata s').
+Proof.
+  intros s id r. unfold get.
+  destruct (lenN (sdata s) <? id * ssize s + ssize s) eqn:E; cbn beta iota zeta.
+  - match goal with |- context [if ?c then _ else _] => destruct c end; [left; reflexivity|].
+    right. eexists; eexists; eexists; split; [reflexivity|]. cbn [ssize sdata].
+    split; [reflexivity|split].
+    + unfold takeN, dropN. rewrite <- app_assoc, firstn_skipn. reflexivity.
+    + rewrite !lenN_length, app_length. lia.
+  - match goal with |- context [if ?c then _ else _] => destruct c end; [left; reflexivity|].
+    right. eexists; eexists; eexists; split; [reflexivity|]. cbn [ssize sdata].
+    split; [reflexivity|split; [reflexivity|lia]].
+Qed.
+
 Lemma get_in_body : forall ss body s r id,
   Inv ss body s r -> (id + 1) * ss <= lenN body ->
-  exists s' r', get s id r = Ok (sector ss body id, s', r') /\ Inv ss body s' r'.
+  exists s' r', get s id r = Ok (sector ss body id, s', r') /\ Inv ss body s' r' /\
+                (id + 1) * ss <= lenN (sdata s') /\ lenN (sdata s) <= lenN (sdata s').
 Proof.
   intros ss body s r id [Hs Hb] Hin. unfold get. rewrite Hs.
   rewrite !lenN_length. rewrite lenN_length in Hin.
   assert (Hlen : length body = (length (sdata s) + length r)%nat)
     by (rewrite <- Hb, app_length; reflexivity).
-  destruct (N.of_nat (length (sdata s)) <? id * ss + ss) eqn:E.
+  destruct (N.of_nat (length (sdata s)) <? id * ss + ss) eqn:E; cbn beta iota zeta.
   - (* the cache grows *)
     set (need := id * ss + ss - N.of_nat (length (sdata s))).
     assert (Hneed : need <= N.of_nat (length r)) by (unfold need; lia).
-    rewrite (N.min_l _ _ Hneed). rewrite N.ltb_irrefl.
+    rewrite (N.min_l _ _ Hneed).
+    assert (Hl : lenN (sdata s ++ takeN need r) = id * ss + ss).
+    { rewrite lenN_length, app_length. unfold takeN. rewrite firstn_length. unfold need. lia. }
+    rewrite Hl, N.min_id.
+    replace (id * ss + ss <? id * ss) with false by (symmetry; apply N.ltb_ge; lia).
     eexists; eexists; split.
     + apply f_equal. apply (f_equal2 pair); [apply (f_equal2 pair); [|reflexivity]|reflexivity].
-      unfold sector, takeN, dropN. cbn [sdata].
+      unfold sector, takeN, dropN.
       rewrite <- Hb.
       rewrite <- (firstn_skipn (N.to_nat need) r) at 2.
       rewrite app_assoc.
+      replace (N.to_nat (id * ss + ss - id * ss)) with (N.to_nat ss) by lia.
       symmetry. apply firstn_skipn_prefix.
       rewrite app_length, firstn_length. unfold need. lia.
-    + split; [reflexivity|].
-      cbn [sdata]. unfold takeN, dropN. rewrite <- app_assoc, firstn_skipn. exact Hb.
-  - eexists; eexists; split; [|split; [exact Hs|exact Hb]].
-    apply f_equal. apply (f_equal2 pair); [apply (f_equal2 pair); [|reflexivity]|reflexivity].
-    unfold sector, takeN, dropN. rewrite <- Hb. symmetry. apply firstn_skipn_prefix. lia.
+    + split; [split; [reflexivity|]|split]; cbn [sdata].
+      * unfold takeN, dropN. rewrite <- app_assoc, firstn_skipn. exact Hb.
+      * rewrite Hl. lia.
+      * rewrite Hl. lia.
+  - rewrite lenN_length.
+    rewrite (N.min_l (id * ss + ss)) by lia.
+    replace (id * ss + ss <? id * ss) with false by (symmetry; apply N.ltb_ge; lia).
+    eexists; eexists; split; [|split; [split; [exact Hs|exact Hb]|cbn [sdata]; rewrite lenN_length; lia]].
+    apply f_equal. apply (f_equal2 pair); [apply (f_equal2 pair); [|destruct s; cbn in *; subst; reflexivity]|reflexivity].
+    unfold sector, takeN, dropN. rewrite <- Hb.
+    replace (N.to_nat (id * ss + ss - id * ss)) with (N.to_nat ss) by lia.
+    symmetry. apply firstn_skipn_prefix. lia.
 Qed.
 
 (* ------------------------------------------------------------------ chains *)
@@ -101,17 +136,17 @@ Proof.
 Qed.
 
 Lemma chain_loop_ok : forall fat ss body start ids, Chain fat start ids ->
-  forall fuel s r, (length ids < fuel)%nat -> Inv ss body s r ->
+  forall remaining s r, (length ids <= remaining)%nat -> Inv ss body s r ->
   (forall id, In id ids -> (id + 1) * ss <= lenN body) ->
-  exists s' r', get_chain_loop fuel s start fat r
+  exists s' r', get_chain_loop remaining s start fat r
                 = Ok (concat (map (sector ss body) ids), s', r') /\ Inv ss body s' r'.
 Proof.
   induction 1 as [|id nx rest Hne Hnth Hc IH]; intros fuel s r Hf HI Hin.
-  - destruct fuel as [|f]; [cbn in Hf; lia|]. cbn [get_chain_loop].
-    rewrite N.eqb_refl. eexists; eexists; split; [reflexivity|exact HI].
+  - destruct fuel as [|f]; cbn [get_chain_loop]; rewrite N.eqb_refl;
+      (eexists; eexists; split; [reflexivity|exact HI]).
   - destruct fuel as [|f]; [cbn in Hf; lia|]. cbn [get_chain_loop].
     apply N.eqb_neq in Hne. rewrite Hne.
-    destruct (get_in_body id HI (Hin id (or_introl eq_refl))) as [s1 [r1 [Hg HI1]]].
+    destruct (get_in_body id HI (Hin id (or_introl eq_refl))) as [s1 [r1 [Hg [HI1 _]]]].
     rewrite Hg. cbn [obind]. rewrite Hnth.
     destruct (IH f s1 r1) as [s2 [r2 [Hl HI2]]].
     + cbn [length] in Hf. lia.
@@ -133,35 +168,58 @@ Proof.
 Qed.
 
 (* (1) chain following: any FAT, any chain without repetition, any sector contents, any
-   permutation / fragmentation of the sector ids *)
+   permutation / fragmentation of the sector ids, any declared length *)
 Theorem chain_follow : forall fat ss body start ids len s r,
   Chain fat start ids -> NoDup ids ->
   Inv ss body s r ->
   (forall id, In id ids -> (id + 1) * ss <= lenN body) ->
-  len <= ISIZE_MAX ->
   exists s' r',
     get_chain s start fat r len
     = Ok (trunc_spec len (concat (map (sector ss body) ids)), s', r') /\ Inv ss body s' r'.
 Proof.
-  intros fat ss body start ids len s r Hc Hnd HI Hin Hlen.
-  unfold get_chain. replace (ISIZE_MAX <? len) with false by (symmetry; apply N.ltb_ge; exact Hlen).
-  assert (Hf : (length ids < chain_fuel fat)%nat)
-    by (unfold chain_fuel; pose proof (Chain_length_bound Hc Hnd); lia).
-  destruct (chain_loop_ok Hc Hf HI Hin) as [s' [r' [Hl HI']]].
+  intros fat ss body start ids len s r Hc Hnd HI Hin.
+  unfold get_chain.
+  destruct (chain_loop_ok Hc (Chain_length_bound Hc Hnd) HI Hin) as [s' [r' [Hl HI']]].
   rewrite Hl. cbn [obind]. rewrite truncate_spec. eexists; eexists; split; [reflexivity|exact HI'].
 Qed.
 
-(* a chain that never reaches ENDOFCHAIN (a repetition): the loop does not terminate, for any
-   fuel.  P is any set of sector ids closed under "next" *)
-Theorem chain_cycle_out_of_fuel : forall fat ss body (P : N -> Prop),
+(* totality: the loop needs no fuel (it is bounded by the length of the allocation table), never
+   panics, and a chain that never reaches ENDOFCHAIN ends in an I/O error *)
+Lemma get_chain_loop_total : forall fats remaining s id r,
+  get_chain_loop remaining s id fats r = Err ERR_IO \/
+  exists c s' r', get_chain_loop remaining s id fats r = Ok (c, s', r') /\ ssize s' = ssize s /\
+                  sdata s' ++ r' = sdata s ++ r.
+Proof.
+  intros fats. induction remaining as [|k IH]; intros s id r; cbn [get_chain_loop];
+    (destruct (id =? ENDOFCHAIN);
+     [right; eexists; eexists; eexists; split; [reflexivity|split; reflexivity]|]).
+  - left. reflexivity.
+  - destruct (get_total s id r) as [He|[sl [s1 [r1 [Hg [Hs1 [Hd1 _]]]]]]]; [rewrite He; left; reflexivity|].
+    rewrite Hg. cbn [obind]. destruct (nth_error fats (N.to_nat id)) as [nx|]; [|left; reflexivity].
+    destruct (IH s1 nx r1) as [He|[c [s2 [r2 [Hl [Hs2 Hd2]]]]]]; [rewrite He; left; reflexivity|].
+    rewrite Hl. cbn [obind]. right. eexists; eexists; eexists. split; [reflexivity|].
+    split; [congruence|congruence].
+Qed.
+
+Theorem chain_total : forall s id fats r len,
+  get_chain s id fats r len <> Panic /\ get_chain s id fats r len <> OutOfFuel.
+Proof.
+  intros s id fats r len. unfold get_chain.
+  destruct (get_chain_loop_total fats (length fats) s id r) as [He|[c [s' [r' [Hl _]]]]];
+    rewrite ?He, ?Hl; cbn [obind]; split; discriminate.
+Qed.
+
+(* a chain that never reaches ENDOFCHAIN (a repetition): I/O error, whatever the bound.
+   P is any set of sector ids closed under "next" *)
+Theorem chain_cycle_is_error : forall fat ss body (P : N -> Prop),
   (forall id, P id -> id <> ENDOFCHAIN /\ (id + 1) * ss <= lenN body /\
                       exists nx, nth_error fat (N.to_nat id) = Some nx /\ P nx) ->
-  forall fuel s r id, P id -> Inv ss body s r -> get_chain_loop fuel s id fat r = OutOfFuel.
+  forall remaining s r id, P id -> Inv ss body s r -> get_chain_loop remaining s id fat r = Err ERR_IO.
 Proof.
-  intros fat ss body P HP. induction fuel as [|f IH]; intros s r id Hid HI; [reflexivity|].
-  cbn [get_chain_loop]. destruct (HP id Hid) as [Hne [Hin [nx [Hnth Hnx]]]].
-  apply N.eqb_neq in Hne. rewrite Hne.
-  destruct (get_in_body id HI Hin) as [s1 [r1 [Hg HI1]]]. rewrite Hg. cbn [obind]. rewrite Hnth.
+  intros fat ss body P HP. induction remaining as [|f IH]; intros s r id Hid HI;
+    cbn [get_chain_loop]; destruct (HP id Hid) as [Hne [Hin [nx [Hnth Hnx]]]];
+    apply N.eqb_neq in Hne; rewrite Hne; [reflexivity|].
+  destruct (get_in_body id HI Hin) as [s1 [r1 [Hg [HI1 _]]]]. rewrite Hg. cbn [obind]. rewrite Hnth.
   rewrite (IH s1 r1 nx Hnx HI1). reflexivity.
 Qed.
 
@@ -185,12 +243,10 @@ Proof.
   subst nx. inversion Hp; subst; [contradiction|]. left; reflexivity.
 Qed.
 
-Theorem chain_repetition_out_of_fuel : forall fat ss body start p x q,
+Theorem chain_repetition_is_error : forall fat ss body start p x q,
   Path fat start p x -> Path fat x q x -> q <> [] ->
   (forall id, In id (p ++ q) -> (id + 1) * ss <= lenN body) ->
-  forall fuel s r len, Inv ss body s r -> len <= ISIZE_MAX ->
-  get_chain_loop fuel s start fat r = OutOfFuel /\
-  get_chain s start fat r len = OutOfFuel.
+  forall s r len, Inv ss body s r -> get_chain s start fat r len = Err ERR_IO.
 Proof.
   intros fat ss body start p x q Hp Hq Hne Hin.
   assert (Hx : In x q) by (inversion Hq; subst; [contradiction|left; reflexivity]).
@@ -212,11 +268,9 @@ Proof.
         exists nx. split; [exact Ha|apply in_or_app; right; exact Hb]. }
   assert (Hstart : In start (p ++ q)).
   { inversion Hp; subst; [apply in_or_app; right; exact Hx|left; reflexivity]. }
-  intros fuel s r len HI Hlen.
-  pose proof (@chain_cycle_out_of_fuel fat ss body (fun id => In id (p ++ q)) Hclosed) as Hcyc.
-  split; [apply Hcyc; [exact Hstart|exact HI]|].
-  unfold get_chain. replace (ISIZE_MAX <? len) with false by (symmetry; apply N.ltb_ge; exact Hlen).
-  rewrite (Hcyc (chain_fuel fat) s r start Hstart HI). reflexivity.
+  intros s r len HI.
+  pose proof (@chain_cycle_is_error fat ss body (fun id => In id (p ++ q)) Hclosed) as Hcyc.
+  unfold get_chain. rewrite (Hcyc (length fat) s r start Hstart HI). reflexivity.
 Qed.
 
 (* ------------------------------------------------------------------ reads served by the cache *)
@@ -225,17 +279,20 @@ Lemma get_cached : forall s id r,
   get s id r = Ok (sector (ssize s) (sdata s) id, s, r).
 Proof.
   intros s id r H. unfold get.
-  replace (lenN (sdata s) <? id * ssize s + ssize s) with false; [reflexivity|].
-  symmetry. apply N.ltb_ge. lia.
+  replace (lenN (sdata s) <? id * ssize s + ssize s) with false by (symmetry; apply N.ltb_ge; lia).
+  cbn beta iota zeta. rewrite (N.min_l (id * ssize s + ssize s)) by lia.
+  replace (id * ssize s + ssize s <? id * ssize s) with false by (symmetry; apply N.ltb_ge; lia).
+  replace (id * ssize s + ssize s - id * ssize s) with (ssize s) by lia.
+  destruct s; reflexivity.
 Qed.
 
 Lemma chain_loop_cached : forall fat start ids, Chain fat start ids ->
-  forall fuel s r, (length ids < fuel)%nat ->
+  forall remaining s r, (length ids <= remaining)%nat ->
   (forall id, In id ids -> (id + 1) * ssize s <= lenN (sdata s)) ->
-  get_chain_loop fuel s start fat r = Ok (concat (map (sector (ssize s) (sdata s)) ids), s, r).
+  get_chain_loop remaining s start fat r = Ok (concat (map (sector (ssize s) (sdata s)) ids), s, r).
 Proof.
   induction 1 as [|id nx rest Hne Hnth Hc IH]; intros fuel s r Hf Hin.
-  - destruct fuel as [|f]; [cbn in Hf; lia|]. cbn [get_chain_loop]. rewrite N.eqb_refl. reflexivity.
+  - destruct fuel; cbn [get_chain_loop]; rewrite N.eqb_refl; reflexivity.
   - destruct fuel as [|f]; [cbn in Hf; lia|]. cbn [get_chain_loop].
     apply N.eqb_neq in Hne. rewrite Hne.
     rewrite (get_cached s id r (Hin id (or_introl eq_refl))). cbn [obind]. rewrite Hnth.
@@ -244,16 +301,13 @@ Proof.
 Qed.
 
 Lemma get_chain_cached : forall fat start ids s r len, Chain fat start ids -> NoDup ids ->
-  (forall id, In id ids -> (id + 1) * ssize s <= lenN (sdata s)) -> len <= ISIZE_MAX ->
+  (forall id, In id ids -> (id + 1) * ssize s <= lenN (sdata s)) ->
   get_chain s start fat r len
   = Ok (trunc_spec len (concat (map (sector (ssize s) (sdata s)) ids)), s, r).
 Proof.
-  intros fat start ids s r len Hc Hnd Hin Hlen. unfold get_chain.
-  replace (ISIZE_MAX <? len) with false by (symmetry; apply N.ltb_ge; exact Hlen).
-  rewrite (chain_loop_cached Hc (fuel := chain_fuel fat) s r).
-  - cbn [obind]. rewrite truncate_spec. reflexivity.
-  - unfold chain_fuel. pose proof (Chain_length_bound Hc Hnd). lia.
-  - exact Hin.
+  intros fat start ids s r len Hc Hnd Hin. unfold get_chain.
+  rewrite (chain_loop_cached Hc (remaining := length fat) s r (Chain_length_bound Hc Hnd) Hin).
+  cbn [obind]. rewrite truncate_spec. reflexivity.
 Qed.
 
 (* ------------------------------------------------------------------ blocks of equal length *)
@@ -324,19 +378,26 @@ Qed.
 (* (2) a stream below the cutoff is recovered through the mini FAT, and each of its mini sectors
    lies inside the root entry's chain of regular sectors *)
 Theorem mini_compose : forall (c : cfb) name d r mids,
-  find_dir name (directories c) = Some d -> d_len d < 4096 ->
+  find_dir name (directories c) = Some d -> 0 < d_len d -> d_len d < 4096 ->
   ssize (mini_sectors c) = 64 ->
   Chain (mini_fats c) (d_start d) mids -> NoDup mids ->
   (forall m, In m mids -> (m + 1) * 64 <= lenN (sdata (mini_sectors c))) ->
   get_stream c name r
   = Ok (trunc_spec (d_len d) (concat (map (sector 64 (sdata (mini_sectors c))) mids)), c, r).
 Proof.
-  intros c name d r mids Hf Hlen Hss Hc Hnd Hin. unfold get_stream. rewrite Hf.
+  intros c name d r mids Hf Hpos Hlen Hss Hc Hnd Hin. unfold get_stream. rewrite Hf.
+  replace (d_len d =? 0) with false by (symmetry; apply N.eqb_neq; lia).
   replace (d_len d <? 4096) with true by (symmetry; apply N.ltb_lt; exact Hlen).
   rewrite (@get_chain_cached (mini_fats c) (d_start d) mids (mini_sectors c) r (d_len d) Hc Hnd).
   - cbn [obind]. rewrite Hss. destruct c; reflexivity.
   - rewrite Hss. exact Hin.
-  - unfold ISIZE_MAX. lia.
+Qed.
+
+(* a zero-length entry reads as the empty stream whatever its start field holds *)
+Theorem empty_stream : forall (c : cfb) name d r,
+  find_dir name (directories c) = Some d -> d_len d = 0 -> get_stream c name r = Ok ([], c, r).
+Proof.
+  intros c name d r Hf H0. unfold get_stream. rewrite Hf, H0. reflexivity.
 Qed.
 
 Theorem mini_sector_in_root_chain : forall ss body rootids rlen m,
@@ -587,7 +648,7 @@ Proof.
     + split; [constructor; [rewrite firstn_length; lia|exact H1]|cbn [length]; rewrite H2; reflexivity].
 Qed.
 
-Lemma chunks_exact : forall k n (l : list N), (0 < n)%nat -> length l = (k * n)%nat ->
+Lemma chunks_whole : forall k n (l : list N), (0 < n)%nat -> length l = (k * n)%nat ->
   Forall (fun b => length b = n) (chunks n l) /\ length (chunks n l) = k /\ concat (chunks n l) = l.
 Proof.
   intros k n l Hn Hk. unfold chunks.
@@ -764,7 +825,7 @@ Proof.
   unfold placed in Hin.
   repeat (apply in_app_or in Hin; destruct Hin as [Hin|Hin]).
   - apply in_combine_r in Hin.
-    destruct (@chunks_exact (length (l_fat_ids l)) (N.to_nat (c_ss c)) (flat_map le32 (fat_table c l)) Hpos)
+    destruct (@chunks_whole (length (l_fat_ids l)) (N.to_nat (c_ss c)) (flat_map le32 (fat_table c l)) Hpos)
       as [Hf _].
     + rewrite flat_map_le32_length. unfold fat_table. rewrite map_length, seqN_length. nia.
     + rewrite Forall_forall in Hf. apply Hf. exact Hin.
@@ -773,13 +834,13 @@ Proof.
     pose proof (difat_sects_lengths (N.to_nat (epf (c_ss c)) - 1) (l_difat_ids l) (skipn 109 (l_fat_ids l))) as Hl.
     rewrite Forall_forall in Hl. rewrite (Hl e He'). lia.
   - apply in_combine_r in Hin.
-    destruct (@chunks_exact (length (l_dir_ids l)) (N.to_nat (c_ss c)) (dir_bytes c l) Hpos) as [Hf _].
+    destruct (@chunks_whole (length (l_dir_ids l)) (N.to_nat (c_ss c)) (dir_bytes c l) Hpos) as [Hf _].
     + unfold dir_bytes. rewrite (@flat_map_length_blocks _ _ 128%nat).
       * unfold nslots. nia.
       * intros j _. apply dir_entry_length. exact Hv.
     + rewrite Forall_forall in Hf. apply Hf. exact Hin.
   - apply in_combine_r in Hin.
-    destruct (@chunks_exact (length (l_minifat_ids l)) (N.to_nat (c_ss c)) (flat_map le32 (minifat_table c l)) Hpos)
+    destruct (@chunks_whole (length (l_minifat_ids l)) (N.to_nat (c_ss c)) (flat_map le32 (minifat_table c l)) Hpos)
       as [Hf _].
     + rewrite flat_map_le32_length. unfold minifat_table. rewrite map_length, seqN_length. nia.
     + rewrite Forall_forall in Hf. apply Hf. exact Hin.
@@ -1169,6 +1230,16 @@ Definition parsed_cfb c l (ms : sectors) : cfb :=
      mini_sectors := {| sdata := ministream_read c l; ssize := 64 |};
      mini_fats := minifat_table c l |}.
 
+Lemma hd_nonempty : forall (d1 d2 : N) (l : list N), l <> [] -> hd d1 l = hd d2 l.
+Proof. intros d1 d2 [|x l] H; [contradiction|reflexivity]. Qed.
+
+Lemma nonempty_stream_chain : forall c l n b ch, valid_layout c l ->
+  In ((n, b), ch) (stream_chains c l) -> 0 < lenN b -> ch <> [].
+Proof.
+  intros c l n b ch Hv Hin Hpos. destruct (stream_ok_facts _ _ _ Hv Hin) as [Hlen _].
+  intros ->. cbn [length] in Hlen. lia.
+Qed.
+
 Theorem layout_independent_partial : forall c l, valid_layout c l ->
   forall n b, In (n, b) (c_streams c) ->
   forall ms r, Inv (c_ss c) (body_bytes c l) ms r ->
@@ -1177,20 +1248,28 @@ Proof.
   intros c l Hv n b Hin ms r HI.
   destruct (valid_dir Hv) as [_ [_ [_ [Hlc _]]]].
   destruct (stream_has_chain c l n b Hlc Hin) as [ch Hch].
-  set (it := (n, 2, hd ENDOFCHAIN ch, lenN b)).
+  set (it := (n, 2, hd (l_empty_start l) ch, lenN b)).
   assert (Hit : In it (items c l)).
   { unfold items. apply in_or_app. right. apply in_map_iff. exists ((n, b), ch). split; [reflexivity|exact Hch]. }
   pose proof (@find_item c l it Hv Hit) as Hf. subst it. cbn [fst] in Hf.
   destruct (stream_ok_facts _ _ _ Hv Hch) as [_ [H32 _]].
+  destruct (N.eq_dec (lenN b) 0) as [H0|Hne].
+  { (* the empty stream *)
+    rewrite (@empty_stream (parsed_cfb c l ms) n _ r Hf) by exact H0.
+    rewrite lenN_length in H0. destruct b; [|cbn in H0; lia]. eexists; eexists; reflexivity. }
+  assert (Hpos : 0 < lenN b) by lia.
+  pose proof (@nonempty_stream_chain c l n b ch Hv Hch Hpos) as Hchne.
+  rewrite (hd_nonempty (l_empty_start l) ENDOFCHAIN Hchne) in Hf.
   destruct (is_big b) eqn:Hbig.
   - destruct (@big_stream_read c l n b ch Hv Hch Hbig) as [Hc [Hnd [Hb Hres]]].
     unfold get_stream. cbn [parsed_cfb directories]. rewrite Hf.
     unfold dirent_of_item. cbn [d_len d_start snd fst].
+    replace (lenN b =? 0) with false by (symmetry; apply N.eqb_neq; exact Hne).
     unfold is_big, MINI_CUTOFF in Hbig. apply N.leb_le in Hbig.
     replace (lenN b <? 4096) with false by (symmetry; apply N.ltb_ge; exact Hbig).
     cbn [main_sectors fats parsed_cfb].
     destruct (@chain_follow (fat_table c l) (c_ss c) (body_bytes c l) (hd ENDOFCHAIN ch) ch (lenN b) ms r
-                Hc Hnd HI Hb) as [s' [r' [Hg _]]]; [unfold ISIZE_MAX; lia|].
+                Hc Hnd HI Hb) as [s' [r' [Hg _]]].
     rewrite Hg. cbn [obind]. rewrite Hres. eexists; eexists; reflexivity.
   - destruct (@small_stream_read c l n b ch Hv Hch Hbig) as [Hc [Hnd [Hb Hres]]].
     assert (Hlt : lenN b < 4096).
@@ -1198,6 +1277,7 @@ Proof.
     rewrite (@mini_compose (parsed_cfb c l ms) n _ r ch Hf).
     + unfold dirent_of_item. cbn [d_len snd parsed_cfb mini_sectors sdata]. rewrite Hres.
       eexists; eexists; reflexivity.
+    + exact Hpos.
     + exact Hlt.
     + reflexivity.
     + exact Hc.
@@ -1251,11 +1331,7 @@ Proof.
 Qed.
 
 Lemma to_u32_ok : forall (b : list N) n, length b = (4 * n)%nat -> to_u32 b = Ok (to_u32_aux b).
-Proof.
-  intros b n H. unfold to_u32. rewrite lenN_length, H.
-  replace (N.of_nat (4 * n) mod 4 =? 0) with true; [reflexivity|].
-  symmetry. apply N.eqb_eq. lia.
-Qed.
+Proof. reflexivity. Qed.
 
 (* the FAT loading loop returns the little-endian words of the listed sectors, in order *)
 Lemma load_fats_bytes : forall ss body ids s r,
@@ -1267,7 +1343,7 @@ Proof.
   intros ss body ids s r Hss. revert s r. induction ids as [|id ids IH]; intros s r HI Hin.
   - cbn [load_fats map concat to_u32_aux]. eexists; eexists; split; [reflexivity|exact HI].
   - cbn [load_fats].
-    destruct (get_in_body id HI (Hin id (or_introl eq_refl))) as [s1 [r1 [Hg HI1]]].
+    destruct (get_in_body id HI (Hin id (or_introl eq_refl))) as [s1 [r1 [Hg [HI1 _]]]].
     rewrite Hg. cbn [obind].
     assert (Hl : length (sector ss body id) = (4 * N.to_nat (ss / 4))%nat).
     { rewrite sector_length by (apply Hin; left; reflexivity). destruct Hss; subst ss; reflexivity. }
@@ -1286,7 +1362,7 @@ Proof.
   assert (Hb : forall id, In id (l_fat_ids l) -> id < l_nsect l).
   { intros id Hid. apply Hlt. unfold all_sector_ids. apply in_or_app. left. exact Hid. }
   rewrite (map_ext_in _ (sector_content c l)) by (intros a Ha; apply body_sector; [exact Hv|apply Hb; exact Ha]).
-  destruct (@chunks_exact (length (l_fat_ids l)) (N.to_nat (c_ss c)) (flat_map le32 (fat_table c l)) Hpos)
+  destruct (@chunks_whole (length (l_fat_ids l)) (N.to_nat (c_ss c)) (flat_map le32 (fat_table c l)) Hpos)
     as [_ [Hcnt Hcat]].
   { rewrite flat_map_le32_length. unfold fat_table. rewrite map_length, seqN_length. nia. }
   unfold sector_content.
@@ -1351,7 +1427,7 @@ Proof.
   intros c l ids bytes Hv Hb Hinc Hlen.
   pose proof (valid_ss Hv) as Hss. destruct (epf_nat Hss) as [_ [_ [Hpos _]]].
   rewrite (map_ext_in _ (sector_content c l)) by (intros a Ha; apply body_sector; [exact Hv|apply Hb; exact Ha]).
-  destruct (@chunks_exact (length ids) (N.to_nat (c_ss c)) bytes Hpos Hlen) as [_ [Hcnt Hcat]].
+  destruct (@chunks_whole (length ids) (N.to_nat (c_ss c)) bytes Hpos Hlen) as [_ [Hcnt Hcat]].
   unfold sector_content.
   rewrite (@map_content_combine (l_pad l) (N.to_nat (c_ss c)) (placed c l) ids
              (chunks (N.to_nat (c_ss c)) bytes) (placed_keys_nodup Hv) Hinc).
@@ -1397,9 +1473,6 @@ Proof.
               (l_dir_ids l) ((if c_ss c =? 512 then 0 else N.of_nat (length (l_dir_ids l))) * c_ss c)
               s r Hc Hnd HI) as [s' [r' [Hg HI']]].
   - intros id Hid. rewrite (body_length Hv). pose proof (Hb id Hid). nia.
-  - pose proof (nodup_bound Hnd Hb) as Hbd. destruct (valid_ids Hv) as [_ [_ [_ Hres]]].
-    unfold ISIZE_MAX. unfold RESERVED_SECTORS in Hres.
-    destruct (c_ss c =? 512); destruct Hss as [-> | ->]; lia.
   - exists s', r'. split; [|exact HI']. rewrite Hg.
     rewrite (@exact_object c l (l_dir_ids l) (dir_bytes c l) Hv Hb); [|
       intros p Hp; unfold placed; do 2 (apply in_or_app; right); apply in_or_app; left; exact Hp|exact Hlen].
@@ -1446,8 +1519,6 @@ Proof.
               (l_minifat_ids l) (N.of_nat (length (l_minifat_ids l)) * c_ss c)
               s r Hc Hnd HI) as [s' [r' [Hg HI']]].
   - intros id Hid. rewrite (body_length Hv). pose proof (Hb id Hid). nia.
-  - pose proof (nodup_bound Hnd Hb) as Hbd. destruct (valid_ids Hv) as [_ [_ [_ Hres]]].
-    unfold ISIZE_MAX. unfold RESERVED_SECTORS in Hres. destruct Hss as [-> | ->]; lia.
   - eexists; exists s', r'. split; [exact Hg|split; [|exact HI']].
     rewrite (@exact_object c l (l_minifat_ids l) (flat_map le32 (minifat_table c l)) Hv Hb); [|
       intros p Hp; unfold placed; do 3 (apply in_or_app; right); apply in_or_app; left; exact Hp|exact Hlen].
@@ -1473,6 +1544,857 @@ Proof.
   destruct (@chain_follow (fat_table c l) (c_ss c) (body_bytes c l) (hd ENDOFCHAIN (l_root_ids l))
               (l_root_ids l) (l_nmini l * 64) s r Hc Hnd HI) as [s' [r' [Hg HI']]].
   - intros id Hid. rewrite (body_length Hv). pose proof (Hb id Hid). nia.
-  - unfold ISIZE_MAX. lia.
   - exists s', r'. split; [exact Hg|exact HI'].
+Qed.
+
+(* ================================================================== Part 4: the whole file *)
+
+(* ------------------------------------------------------------------ DIFAT walk *)
+Lemma pop_snoc : forall (A : Type) (l : list A) x, pop (l ++ [x]) = Some (l, x).
+Proof. intros. unfold pop. rewrite rev_app_distr. cbn [rev app]. rewrite rev_involutive. reflexivity. Qed.
+
+(* the FAT sector ids held by the DIFAT sectors (without the next-sector pointers) *)
+Fixpoint difat_entries (per : nat) (ids : list N) (rest : list N) : list N :=
+  match ids with
+  | [] => []
+  | _ :: ids' => pad_to per FREESECT (firstn per rest) ++ difat_entries per ids' (skipn per rest)
+  end.
+
+Lemma Forall_firstn : forall (A : Type) (P : A -> Prop) n (l : list A), Forall P l -> Forall P (firstn n l).
+Proof.
+  intros A P n l H. apply Forall_forall. intros x Hx. rewrite Forall_forall in H. apply H.
+  apply (subseq_In (subseq_firstn n l)). exact Hx.
+Qed.
+
+Lemma Forall_skipn : forall (A : Type) (P : A -> Prop) n (l : list A), Forall P l -> Forall P (skipn n l).
+Proof.
+  intros A P n l H. rewrite <- (firstn_skipn n l) in H. apply Forall_app in H. tauto.
+Qed.
+
+Lemma Forall_pad_to : forall (P : N -> Prop) n p (l : list N), Forall P l -> P p -> Forall P (pad_to n p l).
+Proof.
+  intros P n p l Hl Hp. unfold pad_to. apply Forall_app. split; [exact Hl|].
+  apply Forall_forall. intros x Hx. apply repeat_spec in Hx. subst. exact Hp.
+Qed.
+
+Lemma sector_index_bound : forall ss L x, 0 < ss -> (x + 1) * ss <= L -> x < L / ss.
+Proof.
+  intros ss L x Hss H. apply N.lt_le_trans with (x + 1); [lia|].
+  apply N.div_le_lower_bound; [lia|nia].
+Qed.
+
+Lemma difat_walk : forall ss body per ids rest acc s r fuel V,
+  ss = 512 \/ ss = 4096 -> S per = N.to_nat (ss / 4) ->
+  (length ids < fuel)%nat -> Inv ss body s r ->
+  (forall id, In id ids -> (id + 1) * ss <= lenN body) ->
+  NoDup (V ++ ids) -> (forall v, In v V -> (v + 1) * ss <= lenN (sdata s)) ->
+  Forall (fun x => x < RESERVED_SECTORS) ids -> Forall (fun x => x < 4294967296) rest ->
+  map (sector ss body) ids = map (flat_map le32) (difat_sects per ids rest) ->
+  exists s' r', difat_loop fuel (N.of_nat (length V)) s (hd ENDOFCHAIN ids) acc r
+                = Ok (acc ++ difat_entries per ids rest, s', r') /\ Inv ss body s' r'.
+Proof.
+  intros ss body per. induction ids as [|i ids IH];
+    intros rest acc s r fuel V Hss Hper Hf HI Hin Hnd HV Hres Hrest Hmap.
+  - destruct fuel as [|f]; [cbn in Hf; lia|]. cbn [difat_loop hd difat_entries].
+    change (ENDOFCHAIN <? RESERVED_SECTORS) with false. cbn iota. rewrite app_nil_r.
+    eexists; eexists; split; [reflexivity|exact HI].
+  - destruct fuel as [|f]; [cbn in Hf; lia|]. cbn [difat_loop hd].
+    inversion Hres as [|? ? Hi Hres']; subst.
+    replace (i <? RESERVED_SECTORS) with true by (symmetry; apply N.ltb_lt; exact Hi).
+    destruct (get_in_body i HI (Hin i (or_introl eq_refl))) as [s1 [r1 [Hg [HI1 [Hi1 Hmono]]]]].
+    rewrite Hg. cbn [obind].
+    destruct HI as [Hs Hb]. rewrite Hs.
+    assert (Hsl : length (sector ss body i) = N.to_nat ss)
+      by (apply sector_length; apply Hin; left; reflexivity).
+    replace (lenN (sector ss body i) <? ss) with false
+      by (symmetry; apply N.ltb_ge; rewrite lenN_length, Hsl; lia).
+    cbn [map difat_sects] in Hmap. injection Hmap as Hhead Htail.
+    rewrite Hhead.
+    set (E := pad_to per FREESECT (firstn per rest)) in *.
+    assert (HE : Forall (fun x => x < 4294967296) (E ++ [hd ENDOFCHAIN ids])).
+    { apply Forall_app. split.
+      - apply Forall_pad_to; [apply Forall_firstn; exact Hrest|reflexivity].
+      - constructor; [|constructor]. destruct ids as [|j ids']; [reflexivity|].
+        inversion Hres' as [|? ? Hj _]; subst. cbn [hd]. unfold RESERVED_SECTORS in Hj. lia. }
+    unfold to_u32. cbn [obind]. rewrite (to_u32_aux_le32 HE).
+    rewrite app_assoc, pop_snoc.
+    (* the cycle guard: the sectors visited so far are distinct and all inside the cache *)
+    assert (HV1 : forall v, In v (V ++ [i]) -> (v + 1) * ss <= lenN (sdata s1)).
+    { intros v Hv. apply in_app_or in Hv. destruct Hv as [Hv|[<-|[]]]; [|exact Hi1].
+      pose proof (HV v Hv). lia. }
+    assert (Hnd1 : NoDup (V ++ [i])).
+    { rewrite <- (app_nil_r (V ++ [i])). rewrite <- app_assoc.
+      change ([i] ++ []) with [i]. apply (subseq_NoDup (l := V ++ i :: ids)); [|exact Hnd].
+      apply subseq_app; [apply subseq_refl|]. apply subseq_keep. apply subseq_nil_l. }
+    assert (Hcnt : N.of_nat (length (V ++ [i])) <= lenN (sdata s1) / ss).
+    { apply nodup_bound; [exact Hnd1|]. intros x Hx. apply sector_index_bound; [destruct Hss; lia|].
+      apply HV1. exact Hx. }
+    rewrite app_length in Hcnt. cbn [length] in Hcnt.
+    replace (lenN (sdata s1) / ss <? N.of_nat (length V) + 1) with false
+      by (symmetry; apply N.ltb_ge; lia).
+    replace (N.of_nat (length V) + 1) with (N.of_nat (length (V ++ [i])))
+      by (rewrite app_length; cbn [length]; lia).
+    destruct (IH (skipn per rest) (acc ++ E) s1 r1 f (V ++ [i]) Hss Hper) as [s2 [r2 [Hl HI2]]].
+    + cbn [length] in Hf. lia.
+    + exact HI1.
+    + intros x Hx. apply Hin. right. exact Hx.
+    + rewrite <- app_assoc. exact Hnd.
+    + exact HV1.
+    + exact Hres'.
+    + apply Forall_skipn. exact Hrest.
+    + exact Htail.
+    + rewrite Hl. cbn [difat_entries]. rewrite <- app_assoc.
+      eexists; eexists; split; [reflexivity|exact HI2].
+Qed.
+
+Lemma filter_none : forall (p : N -> bool) l, (forall x, In x l -> p x = false) -> filter p l = [].
+Proof.
+  induction l as [|x l IH]; intros H; [reflexivity|]. cbn [filter].
+  rewrite (H x (or_introl eq_refl)). apply IH. intros y Hy. apply H. right. exact Hy.
+Qed.
+
+Lemma filter_all : forall (p : N -> bool) l, (forall x, In x l -> p x = true) -> filter p l = l.
+Proof.
+  induction l as [|x l IH]; intros H; [reflexivity|]. cbn [filter].
+  rewrite (H x (or_introl eq_refl)). f_equal. apply IH. intros y Hy. apply H. right. exact Hy.
+Qed.
+
+Lemma filter_pad_to : forall (p : N -> bool) n q l,
+  (forall x, In x l -> p x = true) -> p q = false -> filter p (pad_to n q l) = l.
+Proof.
+  intros p n q l Hl Hq. unfold pad_to. rewrite filter_app, (filter_all p l Hl).
+  rewrite filter_none; [apply app_nil_r|]. intros x Hx. apply repeat_spec in Hx. subst. exact Hq.
+Qed.
+
+Lemma firstn_add : forall (A : Type) a b (l : list A),
+  firstn a l ++ firstn b (skipn a l) = firstn (a + b) l.
+Proof.
+  induction a as [|a IH]; intros b l; [reflexivity|].
+  destruct l as [|x l]; [cbn [firstn skipn app Nat.add]; destruct b; reflexivity|].
+  cbn [firstn skipn app Nat.add]. f_equal. apply IH.
+Qed.
+
+Lemma filter_difat_entries : forall (p : N -> bool) per ids rest,
+  (forall x, In x rest -> p x = true) -> p FREESECT = false ->
+  filter p (difat_entries per ids rest) = firstn (per * length ids) rest.
+Proof.
+  intros p per. induction ids as [|i ids IH]; intros rest Hr Hq.
+  - cbn [difat_entries length]. rewrite Nat.mul_0_r. reflexivity.
+  - cbn [difat_entries length]. rewrite filter_app.
+    rewrite filter_pad_to; [|intros x Hx; apply Hr; apply (subseq_In (subseq_firstn per rest)); exact Hx|exact Hq].
+    rewrite IH; [|intros x Hx; apply Hr; rewrite <- (firstn_skipn per rest); apply in_or_app; right; exact Hx|exact Hq].
+    replace (per * S (length ids))%nat with (per + per * length ids)%nat by lia.
+    apply firstn_add.
+Qed.
+
+Lemma valid_difat_room : forall c l, valid_layout c l ->
+  N.of_nat (length (l_fat_ids l)) <= 109 + N.of_nat (length (l_difat_ids l)) * (epf (c_ss c) - 1).
+Proof.
+  intros c l Hv. unfold valid_layout, valid_layoutb in Hv. split_andb Hv. apply N.leb_le. exact V14.
+Qed.
+
+Lemma ids_in_file : forall c l id, valid_layout c l -> In id (all_sector_ids c l) ->
+  id < l_nsect l /\ (id + 1) * c_ss c <= lenN (body_bytes c l).
+Proof.
+  intros c l id Hv Hid. destruct (valid_ids Hv) as [_ [Hlt _]]. pose proof (Hlt id Hid) as H.
+  split; [exact H|]. rewrite (body_length Hv). nia.
+Qed.
+
+(* Cfb::new's DIFAT walk over the written file collects exactly the FAT sector ids *)
+Theorem difat_roundtrip : forall c l s r fuel, valid_layout c l ->
+  Inv (c_ss c) (body_bytes c l) s r -> (length (l_difat_ids l) < fuel)%nat ->
+  exists D s' r',
+    difat_loop fuel 0 s (hd ENDOFCHAIN (l_difat_ids l)) (difat_header l) r = Ok (D, s', r') /\
+    filter (fun id => id <? DIFSECT) D = l_fat_ids l /\ Inv (c_ss c) (body_bytes c l) s' r'.
+Proof.
+  intros c l s r fuel Hv HI Hf.
+  pose proof (valid_ss Hv) as Hss. destruct (epf_nat Hss) as [He [_ [Hpos He1]]].
+  destruct (valid_ids Hv) as [_ [Hlt [_ Hres]]]. unfold RESERVED_SECTORS in Hres.
+  set (per := (N.to_nat (epf (c_ss c)) - 1)%nat).
+  assert (Hfat : forall x, In x (l_fat_ids l) -> x < l_nsect l).
+  { intros x Hx. apply Hlt. unfold all_sector_ids. apply in_or_app. left. exact Hx. }
+  assert (Hdif : forall x, In x (l_difat_ids l) -> In x (all_sector_ids c l)).
+  { intros x Hx. unfold all_sector_ids. apply in_or_app. right. apply in_or_app. left. exact Hx. }
+  destruct (@difat_walk (c_ss c) (body_bytes c l) per (l_difat_ids l) (skipn 109 (l_fat_ids l))
+              (difat_header l) s r fuel [] Hss) as [s' [r' [Hl HI']]].
+  - unfold per, epf in *. lia.
+  - exact Hf.
+  - exact HI.
+  - intros id Hid. apply (@ids_in_file c l id Hv (Hdif id Hid)).
+  - cbn [app]. destruct (valid_ids Hv) as [Hnd0 _]. unfold all_sector_ids in Hnd0.
+    destruct (nodup_app_inv _ _ Hnd0) as [_ [Hnd1 _]]. destruct (nodup_app_inv _ _ Hnd1) as [Hnd2 _].
+    exact Hnd2.
+  - intros v [].
+  - apply Forall_forall. intros x Hx. pose proof (Hlt x (Hdif x Hx)). unfold RESERVED_SECTORS. lia.
+  - apply Forall_skipn. apply Forall_forall. intros x Hx. pose proof (Hfat x Hx). lia.
+  - rewrite (map_ext_in _ (sector_content c l))
+      by (intros a Ha; apply body_sector; [exact Hv|apply Hlt, Hdif, Ha]).
+    unfold sector_content.
+    rewrite (@map_content_combine (l_pad l) (N.to_nat (c_ss c)) (placed c l) (l_difat_ids l)
+               (map (flat_map le32) (difat_sects per (l_difat_ids l) (skipn 109 (l_fat_ids l))))
+               (placed_keys_nodup Hv)).
+    + rewrite map_length, difat_sects_count, skipn_all. cbn [map]. apply app_nil_r.
+    + intros p Hp. unfold placed. apply in_or_app. right. apply in_or_app. left. exact Hp.
+    + rewrite map_length, difat_sects_count. apply le_n.
+  - exists (difat_header l ++ difat_entries per (l_difat_ids l) (skipn 109 (l_fat_ids l))), s', r'.
+    split; [exact Hl|split; [|exact HI']].
+    assert (Hp : forall x, In x (l_fat_ids l) -> (x <? DIFSECT) = true).
+    { intros x Hx. apply N.ltb_lt. pose proof (Hfat x Hx). unfold DIFSECT. lia. }
+    rewrite filter_app.
+    rewrite (@filter_difat_entries (fun id => id <? DIFSECT) per);
+      [|intros x Hx; apply Hp; rewrite <- (firstn_skipn 109 (l_fat_ids l)); apply in_or_app; right; exact Hx
+       |reflexivity].
+    unfold difat_header. rewrite firstn_app, filter_app.
+    rewrite (filter_all _ (firstn 109 (l_fat_ids l)))
+      by (intros x Hx; apply Hp; apply (subseq_In (subseq_firstn 109 (l_fat_ids l))); exact Hx).
+    rewrite filter_none.
+    2:{ intros x Hx. apply (subseq_In (subseq_firstn _ _)) in Hx. apply repeat_spec in Hx. subst. reflexivity. }
+    rewrite app_nil_r, firstn_add. apply firstn_all2.
+    pose proof (valid_difat_room Hv) as Hroom. unfold per. unfold epf in *.
+    destruct Hss as [E|E]; rewrite E in *; vm_compute N.to_nat; lia.
+Qed.
+
+(* ------------------------------------------------------------------ directory entries *)
+Lemma firstn_app_len : forall (A : Type) (a b : list A) n, length a = n -> firstn n (a ++ b) = a.
+Proof. intros A a b n H. subst n. apply firstn_app_exact_l. Qed.
+
+Lemma skipn_app_len : forall (A : Type) (a b : list A) n, length a = n -> skipn n (a ++ b) = b.
+Proof.
+  intros A a b n H. subst n. rewrite skipn_app, Nat.sub_diag, skipn_all. reflexivity.
+Qed.
+
+Lemma chunks_aux_blocks : forall (n : nat) (blocks : list (list N)) fuel, (0 < n)%nat ->
+  (forall b, In b blocks -> length b = n) -> (length blocks <= fuel)%nat ->
+  chunks_aux fuel n (concat blocks) = blocks.
+Proof.
+  intros n. induction blocks as [|b rest IH]; intros fuel Hn Hb Hf.
+  - apply chunks_aux_nil.
+  - destruct fuel as [|f]; [cbn in Hf; lia|].
+    pose proof (Hb b (or_introl eq_refl)) as Hlb.
+    destruct b as [|x b']; [cbn in Hlb; lia|].
+    cbn [concat]. change ((x :: b') ++ concat rest) with (x :: (b' ++ concat rest)).
+    cbn [chunks_aux]. change (x :: (b' ++ concat rest)) with ((x :: b') ++ concat rest).
+    rewrite (firstn_app_len _ _ Hlb), (skipn_app_len _ _ Hlb). f_equal.
+    apply IH; [exact Hn|intros y Hy; apply Hb; right; exact Hy|cbn [length] in Hf; lia].
+Qed.
+
+Lemma chunks_blocks : forall (n : nat) (blocks : list (list N)), (0 < n)%nat ->
+  (forall b, In b blocks -> length b = n) -> chunks n (concat blocks) = blocks.
+Proof.
+  intros n blocks Hn Hb. unfold chunks. apply chunks_aux_blocks; [exact Hn|exact Hb|].
+  rewrite (@concat_length_blocks n blocks Hb). nia.
+Qed.
+
+Lemma units_le_zeros : forall m, units_of_bytes_le (repeat 0 (2 * m)) = (repeat 0 m, false).
+Proof.
+  induction m as [|m IH]; [reflexivity|].
+  replace (2 * S m)%nat with (S (S (2 * m))) by lia. cbn [repeat units_of_bytes_le]. rewrite IH.
+  reflexivity.
+Qed.
+
+Lemma units_le_app_zeros : forall us m,
+  units_of_bytes_le (bytes_le_of_units us ++ repeat 0 (2 * m)) = (us ++ repeat 0 m, false).
+Proof.
+  induction us as [|u us IH]; intros m; [apply units_le_zeros|].
+  unfold bytes_le_of_units in *. cbn [flat_map app units_of_bytes_le]. rewrite IH.
+  f_equal. f_equal. lia.
+Qed.
+
+Lemma utf16_decode_zeros : forall m, utf16_decode (repeat 0 m) = repeat 0 m.
+Proof.
+  induction m as [|m IH]; [reflexivity|]. cbn [repeat].
+  rewrite decode_bmp by reflexivity. rewrite IH. reflexivity.
+Qed.
+
+Lemma take_until_nul_zeros : forall s m, (forall ch, In ch s -> ch <> 0) ->
+  take_until_nul (s ++ repeat 0 m) = s.
+Proof.
+  induction s as [|x s IH]; intros m H.
+  - destruct m; reflexivity.
+  - cbn [app take_until_nul].
+    replace (x =? 0) with false by (symmetry; apply N.eqb_neq; apply H; left; reflexivity).
+    f_equal. apply IH. intros ch Hc. apply H. right. exact Hc.
+Qed.
+
+Lemma decode_name_roundtrip : forall name,
+  Forall scalar name -> (forall ch, In ch name -> ch <> 0) -> (length (utf16_encode name) <= 32)%nat ->
+  decode_name (pad_to 64 0 (bytes_le_of_units (utf16_encode name))) = name.
+Proof.
+  intros name Hs Hz Hl. unfold decode_name, pad_to, utf16le_decode_bytes.
+  rewrite bytes_le_length.
+  replace (64 - 2 * length (utf16_encode name))%nat with (2 * (32 - length (utf16_encode name)))%nat by lia.
+  rewrite units_le_app_zeros. rewrite decode_encode_app by exact Hs.
+  rewrite utf16_decode_zeros, app_nil_r. apply take_until_nul_zeros. exact Hz.
+Qed.
+
+Lemma nth_app_plus : forall (a b : list N) k, nth (length a + k) (a ++ b) 0 = nth k b 0.
+Proof. intros. apply app_nth2_plus. Qed.
+
+Lemma u32_at_app : forall (a b : list N) n k, length a = n -> u32_at (a ++ b) (n + k) = u32_at b k.
+Proof.
+  intros a b n k H. subst n. unfold u32_at.
+  replace (1 + (length a + k))%nat with (length a + (1 + k))%nat by lia.
+  replace (2 + (length a + k))%nat with (length a + (2 + k))%nat by lia.
+  replace (3 + (length a + k))%nat with (length a + (3 + k))%nat by lia.
+  rewrite !nth_app_plus. reflexivity.
+Qed.
+
+Definition item_ok (it : list N * N * N * N) : Prop :=
+  Forall scalar (fst (fst (fst it))) /\ (forall ch, In ch (fst (fst (fst it))) -> ch <> 0) /\
+  (length (utf16_encode (fst (fst (fst it)))) <= 31)%nat /\
+  snd (fst it) < 4294967296 /\ snd it < 4294967296.
+
+Lemma from_slice_entry : forall ss hi it, ss = 512 \/ ss = 4096 -> item_ok it ->
+  from_slice (encode_entry ss hi it) ss = Ok (dirent_of_item it).
+Proof.
+  intros ss hi [[[name typ] start] size] Hss (Hs & Hz & Hl & Hst & Hsz). cbn [fst snd] in *.
+  assert (Hlen : length (encode_entry ss hi (name, typ, start, size)) = 128%nat)
+    by (apply encode_entry_length; lia).
+  unfold from_slice. rewrite Hlen.
+  change (128 <? 64)%nat with false. change (128 <? 120)%nat with false.
+  change (128 <? 124)%nat with false. change (128 <? 128)%nat with false. cbn iota.
+  unfold dirent_of_item. cbn [fst snd].
+  assert (Hx : length (pad_to 64 0 (bytes_le_of_units (utf16_encode name))) = 64%nat)
+    by (apply pad_to_length; rewrite bytes_le_length; lia).
+  unfold encode_entry.
+  rewrite (firstn_app_len _ _ Hx), decode_name_roundtrip by (assumption || lia).
+  change 116%nat with (64 + 52)%nat. change 120%nat with (64 + 56)%nat.
+  rewrite (u32_at_app _ _ 52 Hx).
+  assert (H116 : forall tail, u32_at (le16 (if typ =? 0 then 0 else 2 * (N.of_nat (length (utf16_encode name)) + 1)) ++
+                  [typ; 1] ++ le32 FREESECT ++ le32 FREESECT ++ le32 FREESECT ++ repeat 0 36 ++
+                  le32 start ++ tail) 52 = start).
+  { intros tail. unfold u32_at. cbn [le16 le32 app repeat nth Nat.add]. apply le32_value. exact Hst. }
+  rewrite H116.
+  destruct (ss =? 512) eqn:E.
+  - rewrite (u32_at_app _ _ 56 Hx).
+    replace (u32_at _ 56) with size; [reflexivity|].
+    unfold u32_at. cbn [le16 le32 app repeat nth Nat.add]. symmetry. apply le32_value. exact Hsz.
+  - unfold u64_at. change (4 + (64 + 56))%nat with (64 + 60)%nat.
+    rewrite (u32_at_app _ _ 56 Hx), (u32_at_app _ _ 60 Hx).
+    replace (u32_at _ 56 + 4294967296 * u32_at _ 60) with size; [reflexivity|].
+    unfold u32_at, le64. cbn [le16 le32 app repeat nth Nat.add].
+    rewrite (le32_value (x := size mod 4294967296)) by lia.
+    rewrite (le32_value (x := size / 4294967296)) by lia. lia.
+Qed.
+
+Lemma map_outcome_map : forall (A B : Type) (f : A -> outcome B) (g : A -> B) l,
+  (forall x, In x l -> f x = Ok (g x)) -> map_outcome f l = Ok (map g l).
+Proof.
+  induction l as [|x l IH]; intros H; [reflexivity|]. cbn [map_outcome map].
+  rewrite (H x (or_introl eq_refl)). cbn [obind]. rewrite IH; [reflexivity|].
+  intros y Hy. apply H. right. exact Hy.
+Qed.
+
+Lemma valid_name_facts : forall n, valid_nameb n = true ->
+  Forall scalar n /\ (forall ch, In ch n -> ch <> 0) /\ (length (utf16_encode n) <= 31)%nat.
+Proof.
+  intros n H. unfold valid_nameb in H. split_andb H.
+  split; [|split; [|apply Nat.leb_le; exact V0]].
+  - apply Forall_forall. intros ch Hc. pose proof (forallb_In _ _ V1 _ Hc) as Hx.
+    apply andb_prop in Hx. exact (proj1 Hx).
+  - intros ch Hc. pose proof (forallb_In _ _ V1 _ Hc) as Hx. apply andb_prop in Hx.
+    destruct Hx as [_ Hx]. destruct (ch =? 0) eqn:E; [discriminate|]. apply N.eqb_neq. exact E.
+Qed.
+
+Lemma valid_es : forall c l, valid_layout c l -> l_empty_start l < 4294967296.
+Proof.
+  intros c l Hv. unfold valid_layout, valid_layoutb in Hv. split_andb Hv.
+  apply andb_prop in V. apply N.ltb_lt. exact (proj2 V).
+Qed.
+
+Lemma dir_item_ok : forall c l i, valid_layout c l -> item_ok (dir_item c l i).
+Proof.
+  intros c l i Hv. destruct (valid_ids Hv) as [_ [Hlt [_ Hres]]]. unfold RESERVED_SECTORS in Hres.
+  destruct (valid_minis Hv) as [_ [Hmlt [_ [_ Hsmall]]]].
+  unfold dir_item, dir_item_of. destruct (i =? 0).
+  - unfold item_ok, root_item. cbn [fst snd]. split; [|split; [|split; [|split]]].
+    + apply Forall_forall. intros x Hx. apply (forallb_In scalarb ROOT_NAME eq_refl x Hx).
+    + intros ch Hc. pose proof (forallb_In (fun x => negb (x =? 0)) ROOT_NAME eq_refl ch Hc) as H.
+      cbn beta in H. destruct (ch =? 0) eqn:E; [cbn in H; discriminate H|]. apply N.eqb_neq. exact E.
+    + vm_compute. lia.
+    + destruct (l_root_ids l) as [|x t] eqn:E; [reflexivity|]. cbn [hd].
+      assert (x < l_nsect l); [|lia]. apply Hlt. unfold all_sector_ids, sector_chains. cbn [concat].
+      rewrite E. do 4 (apply in_or_app; right). left. reflexivity.
+    + lia.
+  - destruct (assocN i (slot_table c l)) as [it|] eqn:Ea.
+    + apply assocN_Some_In in Ea. unfold slot_table in Ea. apply in_combine_r in Ea.
+      pose proof (items_names _ _ _ Ea) as Hn.
+      destruct (valid_dir Hv) as [_ [_ [_ [_ [Hval _]]]]].
+      destruct (valid_name_facts _ (Hval _ Hn)) as [H1 [H2 H3]].
+      unfold item_ok. split; [exact H1|split; [exact H2|split; [exact H3|]]].
+      unfold items in Ea. apply in_app_or in Ea. destruct Ea as [Ea|Ea]; apply in_map_iff in Ea.
+      * destruct Ea as [x [<- _]]. cbn [fst snd]. split; reflexivity.
+      * destruct Ea as [[[n b] ch] [<- Hch]]. cbn [fst snd].
+        destruct (stream_ok_facts _ _ _ Hv Hch) as [_ [H32 _]]. split; [|exact H32].
+        destruct ch as [|x t]; [apply (valid_es Hv)|]. cbn [hd].
+        destruct (is_big b) eqn:Hbig.
+        -- assert (x < l_nsect l); [|lia]. apply Hlt. unfold all_sector_ids.
+           do 2 (apply in_or_app; right). apply in_concat. exists (x :: t). split; [|left; reflexivity].
+           right. right. right. unfold big_chains. apply in_map_iff. exists ((n, b), x :: t).
+           split; [reflexivity|]. apply filter_In. split; [exact Hch|exact Hbig].
+        -- assert (x < l_nmini l); [|lia]. apply Hmlt. apply in_concat. exists (x :: t).
+           split; [|left; reflexivity]. unfold mini_chains. apply in_map_iff. exists ((n, b), x :: t).
+           split; [reflexivity|]. apply filter_In. split; [exact Hch|cbn [fst snd]; rewrite Hbig; reflexivity].
+    + unfold item_ok, unused_item. cbn [fst snd].
+      split; [constructor|split; [intros ch []|split; [vm_compute; lia|split; reflexivity]]].
+Qed.
+
+Lemma map_outcome_map2 : forall (A B C : Type) (f : B -> outcome C) (h : A -> B) (g : A -> C) l,
+  (forall x, In x l -> f (h x) = Ok (g x)) -> map_outcome f (map h l) = Ok (map g l).
+Proof.
+  induction l as [|x l IH]; intros H; [reflexivity|]. cbn [map_outcome map].
+  rewrite (H x (or_introl eq_refl)). cbn [obind]. rewrite IH; [reflexivity|].
+  intros y Hy. apply H. right. exact Hy.
+Qed.
+
+(* the directory array Cfb::new builds from the directory chain of the written file *)
+Theorem dirs_roundtrip : forall c l, valid_layout c l ->
+  map_outcome (fun ch => from_slice ch (c_ss c)) (chunks 128 (dir_bytes c l)) = Ok (parsed_dirs c l).
+Proof.
+  intros c l Hv. pose proof (valid_ss Hv) as Hss.
+  unfold dir_bytes. rewrite flat_map_concat_map.
+  rewrite chunks_blocks; [|lia|].
+  2:{ intros b Hb. apply in_map_iff in Hb. destruct Hb as [i [<- _]]. apply dir_entry_length. exact Hv. }
+  unfold parsed_dirs. apply map_outcome_map2. intros i _.
+  unfold dir_entry, dir_entry_of. fold (dir_item c l i).
+  apply from_slice_entry; [exact Hss|apply dir_item_ok; exact Hv].
+Qed.
+
+(* ------------------------------------------------------------------ header *)
+Lemma read_exact_app : forall n (a b : list N), length a = N.to_nat n ->
+  read_exact n (a ++ b) = Ok (a, b).
+Proof.
+  intros n a b H. unfold read_exact, takeN, dropN. rewrite lenN_length, app_length.
+  replace (N.of_nat (length a + length b) <? n) with false by (symmetry; apply N.ltb_ge; lia).
+  rewrite (firstn_app_len _ _ H), (skipn_app_len _ _ H). reflexivity.
+Qed.
+
+Lemma difat_header_length : forall l, length (difat_header l) = 109%nat.
+Proof.
+  intros l. unfold difat_header. rewrite firstn_length, app_length, repeat_length. lia.
+Qed.
+
+Lemma difat_header_u32 : forall c l, valid_layout c l ->
+  Forall (fun x => x < 4294967296) (difat_header l).
+Proof.
+  intros c l Hv. destruct (valid_ids Hv) as [_ [Hlt [_ Hres]]]. unfold RESERVED_SECTORS in Hres.
+  apply Forall_firstn. apply Forall_app. split.
+  - apply Forall_forall. intros x Hx.
+    assert (x < l_nsect l) by (apply Hlt; unfold all_sector_ids; apply in_or_app; left; exact Hx). lia.
+  - apply Forall_forall. intros x Hx. apply repeat_spec in Hx. subst x. reflexivity.
+Qed.
+
+(* the first 512 bytes of the written header *)
+Definition h512 c l : list N :=
+  let v3 := c_ss c =? 512 in
+  SIGNATURE ++ repeat 0 16 ++ le16 62 ++ le16 (if v3 then 3 else 4) ++ le16 65534 ++
+  le16 (if v3 then 9 else 12) ++ le16 6 ++ repeat 0 6 ++
+  le32 (if v3 then 0 else N.of_nat (length (l_dir_ids l))) ++
+  le32 (N.of_nat (length (l_fat_ids l))) ++
+  le32 (hd ENDOFCHAIN (l_dir_ids l)) ++ le32 0 ++ le32 MINI_CUTOFF ++
+  le32 (hd ENDOFCHAIN (l_minifat_ids l)) ++ le32 (N.of_nat (length (l_minifat_ids l))) ++
+  le32 (hd ENDOFCHAIN (l_difat_ids l)) ++ le32 (N.of_nat (length (l_difat_ids l))) ++
+  flat_map le32 (difat_header l).
+
+Lemma header_bytes_split : forall c l,
+  header_bytes c l = h512 c l ++ (if c_ss c =? 512 then [] else repeat 0 3584).
+Proof.
+  intros c l. unfold header_bytes, h512. cbv zeta. repeat rewrite <- app_assoc. reflexivity.
+Qed.
+
+Lemma h512_length : forall c l, length (h512 c l) = 512%nat.
+Proof.
+  intros c l. unfold h512. cbv zeta. rewrite !app_length, flat_map_le32_length, difat_header_length.
+  reflexivity.
+Qed.
+
+Lemma hd_chain_u32 : forall c l ch, valid_layout c l -> In ch (sector_chains c l) \/ ch = l_difat_ids l ->
+  hd ENDOFCHAIN ch < 4294967296.
+Proof.
+  intros c l ch Hv Hch. destruct ch as [|x t]; [reflexivity|]. cbn [hd].
+  destruct (valid_ids Hv) as [_ [Hlt [_ Hres]]]. unfold RESERVED_SECTORS in Hres.
+  assert (x < l_nsect l); [|lia]. apply Hlt. unfold all_sector_ids.
+  destruct Hch as [Hch|Hch].
+  - do 2 (apply in_or_app; right). apply in_concat. exists (x :: t). split; [exact Hch|left; reflexivity].
+  - apply in_or_app. right. apply in_or_app. left. rewrite <- Hch. left. reflexivity.
+Qed.
+
+Theorem header_roundtrip : forall c l body, valid_layout c l ->
+  exists h, header_from_reader (header_bytes c l ++ body) = Ok (h, difat_header l, body) /\
+    h_ss h = c_ss c /\
+    h_dir_len h = (if c_ss c =? 512 then 0 else N.of_nat (length (l_dir_ids l))) /\
+    h_dir_start h = hd ENDOFCHAIN (l_dir_ids l) /\
+    h_mini_fat_len h = N.of_nat (length (l_minifat_ids l)) /\
+    h_mini_fat_start h = hd ENDOFCHAIN (l_minifat_ids l) /\
+    h_difat_start h = hd ENDOFCHAIN (l_difat_ids l).
+Proof.
+  intros c l body Hv. pose proof (valid_ss Hv) as Hss.
+  destruct (valid_ids Hv) as [Hnd [Hlt [_ Hres]]]. unfold RESERVED_SECTORS in Hres.
+  assert (Hbd : forall ch, In ch (sector_chains c l) -> N.of_nat (length ch) < 4294967296).
+  { intros ch Hch. destruct (sector_chain_in_fat Hv Hch) as [_ [Hn Hb]].
+    pose proof (nodup_bound Hn Hb). lia. }
+  assert (Hnd_dir := Hbd (l_dir_ids l) (or_introl eq_refl)).
+  assert (Hnd_mf := Hbd (l_minifat_ids l) (or_intror (or_introl eq_refl))).
+  assert (Hs_dir := @hd_chain_u32 c l (l_dir_ids l) Hv (or_introl (or_introl eq_refl))).
+  assert (Hs_mf := @hd_chain_u32 c l (l_minifat_ids l) Hv (or_introl (or_intror (or_introl eq_refl)))).
+  assert (Hs_df := @hd_chain_u32 c l (l_difat_ids l) Hv (or_intror eq_refl)).
+  unfold header_from_reader. rewrite header_bytes_split, <- app_assoc.
+  rewrite (read_exact_app 512 _ _ (h512_length c l)). cbn [obind].
+  assert (Hsig : firstn 8 (h512 c l) = SIGNATURE) by reflexivity.
+  rewrite Hsig. rewrite (proj2 (list_eqb_eq SIGNATURE SIGNATURE) eq_refl). cbn [negb].
+  assert (Hdif : to_u32 (firstn 436 (skipn 76 (h512 c l))) = Ok (difat_header l)).
+  { replace (skipn 76 (h512 c l)) with (flat_map le32 (difat_header l)) by reflexivity.
+    rewrite firstn_all_exact by (rewrite flat_map_le32_length, difat_header_length; reflexivity).
+    unfold to_u32. rewrite (to_u32_aux_le32 (difat_header_u32 Hv)). reflexivity. }
+  rewrite Hdif.
+  assert (F32 : forall k x (pre post : list N), length pre = k -> x < 4294967296 ->
+                u32_at (pre ++ le32 x ++ post) k = x).
+  { intros k x pre post Hk Hx. rewrite <- (Nat.add_0_r k). rewrite (u32_at_app _ _ 0 Hk).
+    unfold u32_at. cbn [le32 app nth Nat.add]. apply le32_value. exact Hx. }
+  destruct Hss as [E|E].
+  - assert (E' : (c_ss c =? 512) = true) by (apply N.eqb_eq; exact E).
+    assert (Hsh : u16_at (h512 c l) 30 = 9) by (unfold h512; rewrite E'; reflexivity).
+    assert (Hmsh : u16_at (h512 c l) 32 = 6) by (unfold h512; rewrite E'; reflexivity).
+    rewrite Hsh, Hmsh. cbn [N.eqb Pos.eqb negb obind]. rewrite E'. cbn [app obind].
+    eexists. split; [reflexivity|]. cbn [h_ss h_dir_len h_dir_start h_mini_fat_len h_mini_fat_start h_difat_start].
+    split; [symmetry; exact E|].
+    unfold h512. rewrite E'. cbv zeta.
+    assert (H0 : (0:N) < 4294967296) by lia.
+    split; [|split; [|split; [|split]]];
+      unfold u32_at; cbn [SIGNATURE repeat le16 le32 app nth Nat.add]; apply le32_value; assumption.
+  - assert (E' : (c_ss c =? 512) = false) by (apply N.eqb_neq; rewrite E; discriminate).
+    assert (Hsh : u16_at (h512 c l) 30 = 12) by (unfold h512; rewrite E'; reflexivity).
+    assert (Hmsh : u16_at (h512 c l) 32 = 6) by (unfold h512; rewrite E'; reflexivity).
+    rewrite Hsh, Hmsh. cbn [N.eqb Pos.eqb negb obind]. rewrite E'.
+    rewrite (read_exact_app 3584 (repeat 0 3584) body) by reflexivity. cbn [obind].
+    eexists. split; [reflexivity|]. cbn [h_ss h_dir_len h_dir_start h_mini_fat_len h_mini_fat_start h_difat_start].
+    split; [symmetry; exact E|].
+    unfold h512. rewrite E'. cbv zeta.
+    split; [|split; [|split; [|split]]];
+      unfold u32_at; cbn [SIGNATURE repeat le16 le32 app nth Nat.add]; apply le32_value; assumption.
+Qed.
+
+(* ------------------------------------------------------------------ Cfb::new on a written file *)
+Lemma filter_true : forall (A : Type) (p : A -> bool) l, (forall x, In x l -> p x = true) -> filter p l = l.
+Proof.
+  induction l as [|x l IH]; intros H; [reflexivity|]. cbn [filter].
+  rewrite (H x (or_introl eq_refl)). f_equal. apply IH. intros y Hy. apply H. right. exact Hy.
+Qed.
+
+Lemma dirs_roundtrip_exact : forall c l, valid_layout c l ->
+  map_outcome (fun ch => from_slice ch (c_ss c)) (chunks_exact 128 (dir_bytes c l))
+  = Ok (parsed_dirs c l).
+Proof.
+  intros c l Hv. rewrite <- (dirs_roundtrip Hv). f_equal. unfold chunks_exact.
+  apply filter_true. intros x Hx. apply Nat.eqb_eq.
+  unfold dir_bytes in Hx. rewrite flat_map_concat_map in Hx. rewrite chunks_blocks in Hx; [|lia|].
+  - apply in_map_iff in Hx. destruct Hx as [i [<- _]]. apply dir_entry_length. exact Hv.
+  - intros b Hb. apply in_map_iff in Hb. destruct Hb as [i [<- _]]. apply dir_entry_length. exact Hv.
+Qed.
+
+Lemma nslots_pos : forall c l, valid_layout c l -> (1 <= nslots c l)%nat.
+Proof.
+  intros c l Hv. pose proof (valid_ss Hv) as Hss.
+  assert (H1 : (1 <= length (l_dir_ids l))%nat).
+  { unfold valid_layout, valid_layoutb in Hv. split_andb Hv. apply Nat.leb_le. exact V13. }
+  unfold nslots. destruct Hss as [E|E]; rewrite E;
+    [change (N.to_nat (512 / 128)) with 4%nat|change (N.to_nat (4096 / 128)) with 32%nat]; lia.
+Qed.
+
+(* what Cfb::new returns on a written file: the tables of the layout *)
+Definition written_cfb c l (cf : cfb) (r : list N) : Prop :=
+  directories cf = parsed_dirs c l /\ fats cf = fat_table c l /\
+  Inv (c_ss c) (body_bytes c l) (main_sectors cf) r /\
+  ((mini_sectors cf = {| sdata := ministream_read c l; ssize := 64 |} /\
+    mini_fats cf = minifat_table c l) \/ l_nmini l = 0).
+
+Theorem cfb_new_written : forall c l fuel, valid_layout c l -> (fuel_for l <= fuel)%nat ->
+  exists cf r, cfb_new fuel (cfb_write c l) = Ok (cf, r) /\ written_cfb c l cf r.
+Proof.
+  intros c l fuel Hv Hfuel. pose proof (valid_ss Hv) as Hss.
+  destruct (header_roundtrip (body_bytes c l) Hv) as [h [Hh [H1 [H2 [H3 [H4 [H5 H6]]]]]]].
+  unfold cfb_new, cfb_write. rewrite Hh. cbn [obind]. rewrite H1, H2, H3, H4, H5, H6.
+  assert (HI0 : Inv (c_ss c) (body_bytes c l) {| sdata := []; ssize := c_ss c |} (body_bytes c l))
+    by (split; reflexivity).
+  destruct (@difat_roundtrip c l _ _ fuel Hv HI0) as [D [s1 [r1 [Hd [Hfil HI1]]]]];
+    [unfold fuel_for in Hfuel; lia|].
+  rewrite Hd. cbn [obind]. rewrite Hfil.
+  destruct (fat_load_roundtrip Hv HI1) as [s2 [r2 [Hf HI2]]]. rewrite Hf. cbn [obind].
+  destruct (dir_chain_roundtrip Hv HI2) as [s3 [r3 [Hdir HI3]]]. rewrite Hdir. cbn [obind].
+  rewrite (dirs_roundtrip_exact Hv). cbn [obind].
+  pose proof (nslots_pos Hv) as Hns.
+  destruct (parsed_dirs c l) as [|d0 rest] eqn:Epd.
+  { exfalso. unfold parsed_dirs in Epd. destruct (nslots c l); [lia|discriminate]. }
+  assert (Hd0 : d_start d0 = hd ENDOFCHAIN (l_root_ids l) /\ d_len d0 = l_nmini l * 64).
+  { unfold parsed_dirs in Epd. destruct (nslots c l) as [|k]; [lia|].
+    cbn [seqN seqN_from map] in Epd. injection Epd as E0 _. subst d0.
+    unfold dir_item, dir_item_of. rewrite N.eqb_refl. split; reflexivity. }
+  destruct Hd0 as [Hst Hln]. rewrite Hst, Hln.
+  destruct (valid_minis Hv) as [_ [_ [Hcov _]]].
+  destruct (0 <? N.of_nat (length (l_minifat_ids l))) eqn:Emf.
+  - destruct (ministream_roundtrip Hv HI3) as [s4 [r4 [Hms HI4]]]. rewrite Hms. cbn [obind].
+    destruct (minifat_load_roundtrip Hv HI4) as [mf [s5 [r5 [Hmf [Hu HI5]]]]].
+    rewrite Hmf. cbn [obind]. rewrite Hu. cbn [obind].
+    eexists; eexists; split; [reflexivity|].
+    unfold written_cfb. cbn [directories fats main_sectors mini_sectors mini_fats].
+    split; [symmetry; exact Epd|split; [reflexivity|split; [exact HI5|left; split; reflexivity]]].
+  - eexists; eexists; split; [reflexivity|].
+    unfold written_cfb. cbn [directories fats main_sectors mini_sectors mini_fats].
+    split; [symmetry; exact Epd|split; [reflexivity|split; [exact HI3|right]]].
+    apply N.ltb_ge in Emf. nia.
+Qed.
+
+(* get_stream on any Cfb value that holds the written tables *)
+Theorem get_stream_written : forall c l cf r, valid_layout c l -> written_cfb c l cf r ->
+  forall n b, In (n, b) (c_streams c) ->
+  exists c' r', get_stream cf n r = Ok (b, c', r').
+Proof.
+  intros c l cf r Hv (Hdirs & Hfats & HI & Hmini) n b Hin.
+  destruct (valid_dir Hv) as [_ [_ [_ [Hlc _]]]].
+  destruct (stream_has_chain c l n b Hlc Hin) as [ch Hch].
+  set (it := (n, 2, hd (l_empty_start l) ch, lenN b)).
+  assert (Hit : In it (items c l)).
+  { unfold items. apply in_or_app. right. apply in_map_iff. exists ((n, b), ch). split; [reflexivity|exact Hch]. }
+  pose proof (@find_item c l it Hv Hit) as Hf. subst it. cbn [fst] in Hf. rewrite <- Hdirs in Hf.
+  destruct (stream_ok_facts _ _ _ Hv Hch) as [_ [H32 _]].
+  destruct (N.eq_dec (lenN b) 0) as [H0|Hne].
+  { rewrite (@empty_stream cf n _ r Hf) by exact H0.
+    rewrite lenN_length in H0. destruct b; [|cbn in H0; lia]. eexists; eexists; reflexivity. }
+  assert (Hpos : 0 < lenN b) by lia.
+  pose proof (@nonempty_stream_chain c l n b ch Hv Hch Hpos) as Hchne.
+  rewrite (hd_nonempty (l_empty_start l) ENDOFCHAIN Hchne) in Hf.
+  destruct (is_big b) eqn:Hbig.
+  - destruct (@big_stream_read c l n b ch Hv Hch Hbig) as [Hc [Hnd [Hb Hres]]].
+    unfold get_stream. rewrite Hf.
+    unfold dirent_of_item. cbn [d_len d_start snd fst].
+    replace (lenN b =? 0) with false by (symmetry; apply N.eqb_neq; exact Hne).
+    unfold is_big, MINI_CUTOFF in Hbig. apply N.leb_le in Hbig.
+    replace (lenN b <? 4096) with false by (symmetry; apply N.ltb_ge; exact Hbig).
+    rewrite Hfats.
+    destruct (@chain_follow (fat_table c l) (c_ss c) (body_bytes c l) (hd ENDOFCHAIN ch) ch (lenN b)
+                (main_sectors cf) r Hc Hnd HI Hb) as [s' [r' [Hg _]]].
+    rewrite Hg. cbn [obind]. rewrite Hres. eexists; eexists; reflexivity.
+  - destruct Hmini as [[Hms Hmf]|Hzero].
+    + destruct (@small_stream_read c l n b ch Hv Hch Hbig) as [Hc [Hnd [Hb Hres]]].
+      assert (Hlt : lenN b < 4096).
+      { unfold is_big, MINI_CUTOFF in Hbig. apply N.leb_gt in Hbig. exact Hbig. }
+      rewrite (@mini_compose cf n _ r ch Hf).
+      * unfold dirent_of_item. cbn [d_len snd]. rewrite Hms. cbn [sdata]. rewrite Hres.
+        eexists; eexists; reflexivity.
+      * exact Hpos.
+      * exact Hlt.
+      * rewrite Hms. reflexivity.
+      * rewrite Hmf. exact Hc.
+      * exact Hnd.
+      * rewrite Hms. exact Hb.
+    + exfalso. destruct (valid_minis Hv) as [_ [Hmlt _]].
+      destruct ch as [|x t]; [contradiction|].
+      assert (x < l_nmini l); [|lia]. apply Hmlt. apply in_concat. exists (x :: t).
+      split; [|left; reflexivity]. unfold mini_chains. apply in_map_iff. exists ((n, b), x :: t).
+      split; [reflexivity|]. apply filter_In. split; [exact Hch|cbn [fst snd]; rewrite Hbig; reflexivity].
+Qed.
+
+(* (3) layout independence, through the bytes *)
+Theorem layout_independent : forall c l fuel, valid_layout c l -> (fuel_for l <= fuel)%nat ->
+  forall n b, In (n, b) (c_streams c) -> cfb_get_stream fuel (cfb_write c l) n = Ok b.
+Proof.
+  intros c l fuel Hv Hfuel n b Hin. unfold cfb_get_stream.
+  destruct (cfb_new_written Hv Hfuel) as [cf [r [Hnew Hw]]]. rewrite Hnew. cbn [obind].
+  destruct (get_stream_written Hv Hw n b Hin) as [c' [r' Hg]]. rewrite Hg. reflexivity.
+Qed.
+
+Corollary same_streams_same_read : forall c1 l1 c2 l2 n b,
+  valid_layout c1 l1 -> valid_layout c2 l2 -> In (n, b) (c_streams c1) -> In (n, b) (c_streams c2) ->
+  cfb_get_stream (fuel_for l1) (cfb_write c1 l1) n = cfb_get_stream (fuel_for l2) (cfb_write c2 l2) n.
+Proof.
+  intros c1 l1 c2 l2 n b H1 H2 I1 I2.
+  rewrite (layout_independent H1 (le_n _) n b I1), (layout_independent H2 (le_n _) n b I2). reflexivity.
+Qed.
+
+(* interface for C20: the written file opens and every name is listed in the directory *)
+Theorem written_names_listed : forall c l fuel, valid_layout c l -> (fuel_for l <= fuel)%nat ->
+  exists cf r, cfb_new fuel (cfb_write c l) = Ok (cf, r) /\
+    forall n, In n (all_names c) ->
+      (exists d, In d (directories cf) /\ d_name d = n) /\ has_directory cf n = true.
+Proof.
+  intros c l fuel Hv Hfuel. destruct (cfb_new_written Hv Hfuel) as [cf [r [Hnew (Hdirs & _)]]].
+  exists cf, r. split; [exact Hnew|]. intros n Hn.
+  destruct (valid_dir Hv) as [_ [_ [_ [Hlc _]]]].
+  rewrite <- (items_names_eq c l Hlc) in Hn. apply in_map_iff in Hn. destruct Hn as [it [<- Hit]].
+  pose proof (@item_in_dirs c l it Hv Hit) as Hd. rewrite <- Hdirs in Hd.
+  split; [exists (dirent_of_item it); split; [exact Hd|reflexivity]|].
+  unfold has_directory. apply existsb_exists. exists (dirent_of_item it).
+  split; [exact Hd|]. cbn [dirent_of_item d_name]. apply list_eqb_eq. reflexivity.
+Qed.
+
+(* ================================================================== Part 5: totality *)
+(* no input makes the model panic; the only fuel (DIFAT walk) is bounded by the file *)
+Definition fine (A : Type) (o : outcome A) : Prop := o <> Panic /\ o <> OutOfFuel.
+
+Lemma fine_ok : forall (A : Type) (a : A), fine (Ok a).
+Proof. intros; split; discriminate. Qed.
+Lemma fine_err : forall (A : Type) e, fine (@Err A e).
+Proof. intros; split; discriminate. Qed.
+
+Lemma fine_bind : forall (A B : Type) (o : outcome A) (f : A -> outcome B),
+  fine o -> (forall a, o = Ok a -> fine (f a)) -> fine (obind o f).
+Proof.
+  intros A B o f [H1 H2] Hf. destruct o; cbn [obind]; try (split; discriminate);
+    [apply Hf; reflexivity|contradiction|contradiction].
+Qed.
+
+Lemma get_fine : forall s id r, fine (get s id r).
+Proof.
+  intros s id r. destruct (get_total s id r) as [->|[sl [s' [r' [-> _]]]]]; [apply fine_err|apply fine_ok].
+Qed.
+
+Lemma get_chain_fine : forall s id fats r len, fine (get_chain s id fats r len).
+Proof. intros. apply chain_total. Qed.
+
+Lemma load_fats_fine : forall ids s r, fine (load_fats ids s r).
+Proof.
+  induction ids as [|id ids IH]; intros s r; cbn [load_fats]; [apply fine_ok|].
+  apply fine_bind; [apply get_fine|]. intros [[sl s1] r1] _. unfold to_u32. cbn [obind].
+  apply fine_bind; [apply IH|]. intros [[rest s2] r2] _. apply fine_ok.
+Qed.
+
+Lemma from_slice_128 : forall buf ss, length buf = 128%nat -> exists d, from_slice buf ss = Ok d.
+Proof.
+  intros buf ss H. unfold from_slice. rewrite H.
+  change (128 <? 64)%nat with false. change (128 <? 120)%nat with false.
+  change (128 <? 124)%nat with false. change (128 <? 128)%nat with false. cbn iota.
+  destruct (ss =? 512); eexists; reflexivity.
+Qed.
+
+Lemma map_from_slice_fine : forall ss (l : list (list N)),
+  (forall b, In b l -> length b = 128%nat) -> fine (map_outcome (fun c => from_slice c ss) l).
+Proof.
+  intros ss. induction l as [|b l IH]; intros H; cbn [map_outcome]; [apply fine_ok|].
+  destruct (from_slice_128 b ss (H b (or_introl eq_refl))) as [d ->]. cbn [obind].
+  apply fine_bind; [apply IH; intros x Hx; apply H; right; exact Hx|]. intros ds _. apply fine_ok.
+Qed.
+
+Lemma chunks_exact_lengths : forall (n : nat) (l : list N) b, In b (chunks_exact n l) -> length b = n.
+Proof.
+  intros n l b H. unfold chunks_exact in H. apply filter_In in H. apply Nat.eqb_eq. exact (proj2 H).
+Qed.
+
+Lemma difat_loop_no_panic : forall fuel n s id d r, difat_loop fuel n s id d r <> Panic.
+Proof.
+  induction fuel as [|f IH]; intros n s id d r; cbn [difat_loop]; [discriminate|].
+  destruct (id <? RESERVED_SECTORS); [|discriminate].
+  destruct (get_total s id r) as [->|[sl [s1 [r1 [-> _]]]]]; cbn [obind]; [discriminate|].
+  destruct (lenN sl <? ssize s); [discriminate|]. unfold to_u32. cbn [obind].
+  destruct (pop (d ++ to_u32_aux sl)) as [[d' last]|];
+    (destruct (lenN (sdata s1) / ssize s <? n + 1); [discriminate|apply IH]).
+Qed.
+
+(* the DIFAT walk ends by itself: the counter never exceeds the number of sectors of the file *)
+Lemma difat_loop_no_fuel : forall fuel n s id d r,
+  n <= lenN (sdata s ++ r) / ssize s -> lenN (sdata s ++ r) / ssize s < n + N.of_nat fuel ->
+  difat_loop fuel n s id d r <> OutOfFuel.
+Proof.
+  induction fuel as [|f IH]; intros n s id d r Hn Hf; [lia|]. cbn [difat_loop].
+  destruct (id <? RESERVED_SECTORS); [|discriminate].
+  destruct (get_total s id r) as [->|[sl [s1 [r1 [-> [Hs1 [Hd1 Hm]]]]]]]; cbn [obind]; [discriminate|].
+  destruct (lenN sl <? ssize s); [discriminate|]. unfold to_u32. cbn [obind].
+  assert (Hle : lenN (sdata s1) / ssize s <= lenN (sdata s ++ r) / ssize s).
+  { destruct (N.eq_dec (ssize s) 0) as [E0|E0]; [rewrite E0; destruct (lenN (sdata s1)), (lenN (sdata s ++ r)); cbn; lia|].
+    apply N.div_le_mono; [exact E0|]. rewrite <- Hd1, !lenN_length, app_length. lia. }
+  destruct (pop (d ++ to_u32_aux sl)) as [[d' last]|];
+    (destruct (lenN (sdata s1) / ssize s <? n + 1) eqn:E; [discriminate|];
+     apply N.ltb_ge in E; apply IH; rewrite Hs1, Hd1; lia).
+Qed.
+
+Theorem cfb_new_total : forall fuel file,
+  cfb_new fuel file <> Panic /\
+  (lenN file / 512 < N.of_nat fuel -> cfb_new fuel file <> OutOfFuel).
+Proof.
+  intros fuel file.
+  assert (G : forall (P : outcome (cfb * list N) -> Prop), True) by trivial. clear G.
+  unfold cfb_new.
+  (* header *)
+  unfold header_from_reader, read_exact.
+  destruct (lenN file <? 512) eqn:E0; cbn [obind]; [split; [discriminate|intros; discriminate]|].
+  destruct (negb (list_eqb (firstn 8 (takeN 512 file)) SIGNATURE)); [split; [discriminate|intros; discriminate]|].
+  set (buf := takeN 512 file). set (r1 := dropN 512 file).
+  assert (Hr1 : lenN r1 <= lenN file)
+    by (unfold r1, dropN; rewrite !lenN_length, skipn_length; lia).
+  assert (K : forall ss r2, (ss = 512 \/ ss = 4096) -> lenN r2 <= lenN file ->
+     let k := fun (h : header) (difat0 : list N) (r0 : list N) =>
+       (do (difat, s1, r1) <- difat_loop fuel 0 {| sdata := []; ssize := h_ss h |} (h_difat_start h) difat0 r0;
+        do (fat, s2, r2) <- load_fats (filter (fun id => id <? DIFSECT) difat) s1 r1;
+        do (dirbytes, s3, r3) <- get_chain s2 (h_dir_start h) fat r2 (h_dir_len h * h_ss h);
+        do dirs <- map_outcome (fun c => from_slice c (h_ss h)) (chunks_exact 128 dirbytes);
+        match dirs with
+        | [] => Err ERR_EMPTY_ROOT
+        | d0 :: _ =>
+          if 0 <? h_mini_fat_len h then
+            do (ministream, s4, r4) <- get_chain s3 (d_start d0) fat r3 (d_len d0);
+            do (mf, s5, r5) <- get_chain s4 (h_mini_fat_start h) fat r4 (h_mini_fat_len h * h_ss h);
+            do minifat <- to_u32 mf;
+            Ok ({| directories := dirs; main_sectors := s5; fats := fat;
+                   mini_sectors := {| sdata := ministream; ssize := 64 |}; mini_fats := minifat |}, r5)
+          else
+            Ok ({| directories := dirs; main_sectors := s3; fats := fat;
+                   mini_sectors := {| sdata := []; ssize := 64 |}; mini_fats := [] |}, r3)
+        end) in
+     forall h d0, h_ss h = ss ->
+       k h d0 r2 <> Panic /\ (lenN file / 512 < N.of_nat fuel -> k h d0 r2 <> OutOfFuel)).
+  { intros ss r2 Hss Hr2 k h d0 Hh. unfold k. clear k.
+    assert (Tail : forall dl s1 rr, fine (
+        do (fat, s2, r2) <- load_fats (filter (fun id => id <? DIFSECT) dl) s1 rr;
+        do (dirbytes, s3, r3) <- get_chain s2 (h_dir_start h) fat r2 (h_dir_len h * h_ss h);
+        do dirs <- map_outcome (fun c => from_slice c (h_ss h)) (chunks_exact 128 dirbytes);
+        match dirs with
+        | [] => Err ERR_EMPTY_ROOT
+        | d0 :: _ =>
+          if 0 <? h_mini_fat_len h then
+            do (ministream, s4, r4) <- get_chain s3 (d_start d0) fat r3 (d_len d0);
+            do (mf, s5, r5) <- get_chain s4 (h_mini_fat_start h) fat r4 (h_mini_fat_len h * h_ss h);
+            do minifat <- to_u32 mf;
+            Ok ({| directories := dirs; main_sectors := s5; fats := fat;
+                   mini_sectors := {| sdata := ministream; ssize := 64 |}; mini_fats := minifat |}, r5)
+          else
+            Ok ({| directories := dirs; main_sectors := s3; fats := fat;
+                   mini_sectors := {| sdata := []; ssize := 64 |}; mini_fats := [] |}, r3)
+        end)).
+    { intros dl s1 rr. apply fine_bind; [apply load_fats_fine|]. intros [[fat s2] r2'] _.
+      apply fine_bind; [apply get_chain_fine|]. intros [[db s3] r3] _.
+      apply fine_bind; [apply map_from_slice_fine; intros b Hb; apply (chunks_exact_lengths _ _ _ Hb)|].
+      intros dirs _. destruct dirs as [|dd ?]; [apply fine_err|].
+      destruct (0 <? h_mini_fat_len h); [|apply fine_ok].
+      apply fine_bind; [apply get_chain_fine|]. intros [[ms s4] r4] _.
+      apply fine_bind; [apply get_chain_fine|]. intros [[mf s5] r5] _.
+      unfold to_u32. cbn [obind]. apply fine_ok. }
+    split.
+    - destruct (difat_loop fuel 0 {| sdata := []; ssize := h_ss h |} (h_difat_start h) d0 r2)
+        as [[[dl s1] rr]| | |] eqn:Ed; cbn [obind]; try discriminate.
+      + apply Tail.
+      + exfalso. exact (difat_loop_no_panic _ _ _ _ _ _ Ed).
+    - intros Hfuel.
+      destruct (difat_loop fuel 0 {| sdata := []; ssize := h_ss h |} (h_difat_start h) d0 r2)
+        as [[[dl s1] rr]| | |] eqn:Ed; cbn [obind]; try discriminate.
+      + apply Tail.
+      + exfalso. revert Ed. apply difat_loop_no_fuel; cbn [sdata ssize app]; [lia|].
+        rewrite Hh. apply N.le_lt_trans with (lenN file / 512); [|lia].
+        apply N.le_trans with (lenN file / ss).
+        * apply N.div_le_mono; [destruct Hss; lia|exact Hr2].
+        * destruct Hss as [-> | ->]; [lia|]. apply N.div_le_compat_l. lia. }
+  destruct (u16_at buf 30 =? 9) eqn:E9; cbn [obind].
+  - destruct (negb (u16_at buf 32 =? 6)); [split; [discriminate|intros; discriminate]|].
+    unfold to_u32. cbn [obind]. apply (K 512 r1 (or_introl eq_refl) Hr1). reflexivity.
+  - destruct (u16_at buf 30 =? 12) eqn:E12; cbn [obind]; [|split; [discriminate|intros; discriminate]].
+    destruct (lenN r1 <? 3584); cbn [obind]; [split; [discriminate|intros; discriminate]|].
+    destruct (negb (u16_at buf 32 =? 6)); [split; [discriminate|intros; discriminate]|].
+    unfold to_u32. cbn [obind]. apply (K 4096 (dropN 3584 r1) (or_intror eq_refl)); [|reflexivity].
+    unfold dropN. rewrite lenN_length, skipn_length. rewrite lenN_length in Hr1. lia.
+Qed.
+
+Theorem get_stream_total : forall cf name r,
+  get_stream cf name r <> Panic /\ get_stream cf name r <> OutOfFuel.
+Proof.
+  intros cf name r. unfold get_stream. destruct (find_dir name (directories cf)) as [d|]; [|split; discriminate].
+  destruct (d_len d =? 0); [split; discriminate|].
+  destruct (d_len d <? 4096); (apply fine_bind; [apply get_chain_fine|]); intros [[b ms] r1] _; apply fine_ok.
 Qed.
